@@ -69,6 +69,9 @@ def scenarios(rng, variant=2):
     yield 'evp.als(previous)', [H, g, xn], lambda: evp.als(H, g, previous=[xn], shift=-3.0, repeats=1, solver='eigh')
     yield 'evp.power_method', [A, g], lambda: evp.power_method(A, g, repeats=3, sigma=0.5)
     yield 'ode.explicit_euler', [H, x], lambda: ode.explicit_euler(H, x, [0.01, 0.02], normalize=2, progress=False)
+    # a time grid starting with an empty step, over-parameterised initial value
+    xr = x + x - x
+    yield 'ode.explicit_euler(zero first step)', [H, xr], lambda: ode.explicit_euler(H, xr, [0.0, 0.01], threshold=0, normalize=0, progress=False)
     yield 'ode.implicit_euler', [gen, p0, g], lambda: ode.implicit_euler(gen, p0, g, [0.01, 0.02], progress=False)
     yield 'ode.trapezoidal_rule', [gen, p0, g], lambda: ode.trapezoidal_rule(gen, p0, g, [0.01, 0.02], tt_solver='mals', progress=False)
     yield 'ode.hod', [H, x, b], lambda: ode.hod(H, x, 0.01, 2, order=4, previous_value=b, normalize=2, progress=False)
